@@ -190,10 +190,19 @@ def driver(ctx, rns):
     ctx.engine("per-branch-driver", cases=n + 1)
 
 
+def fuzz_targets():
+    def body(sp):
+        check_tree(sp)
+    return {"trees": (tree_strategy(False), body)}
+
+
 def run(ctx):
     names = sorted(R.rules_dict)
     ctx.pmap(driver, [names[i::16] for i in range(16)])
     ctx.pmap(hyp_shard, range(16))
+    if not ctx.quick:
+        from vf import fuzz
+        fuzz.campaign(ctx, ID, "trees", procs=8, runs=30000)
     codes = sorted(k[len("driver-seen-code:"):] for k in ctx.counters if k.startswith("driver-seen-code:"))
     excs = sorted(k[len("driver-seen-exc:"):] for k in ctx.counters if k.startswith("driver-seen-exc:"))
     ctx.engine("per-branch-driver", error_codes_reached=codes, exception_classes_reached=excs,
